@@ -341,7 +341,7 @@ def inst_tokens(inst):
     return out
 
 
-VARIANTS = ('compact', 'spaced', 'lines', 'cmt_structural', 'cmt_before_top')
+VARIANTS = ('compact', 'spaced', 'lines', 'cmt_structural', 'cmt_before_top')   # + 'cmt_between': comments only on their own lines between instances
 
 COMMENTS_BENIGN = ['/* c */', '/**/', '/*\n multi\n line */', '/* * / */', '/* a, b */']
 COMMENTS_HOSTILE = ["/* it's */", '/* ; */', '/* #99 = X(1); */', '/* ( */', '/* ) */', '/* ENDSEC; */']
@@ -405,7 +405,7 @@ def render(pop, variant='compact', rng=None, kind='ISO-10303-21', header_variant
     o.append('DATA;')
     for inst in pop.insts:
         o.append(join_tokens(inst_tokens(inst), variant, rng))
-        if variant.startswith('cmt') and rng.random() < .3:
+        if variant.startswith('cmt') and rng.random() < (.6 if variant == 'cmt_between' else .3):
             o.append(rng.choice(COMMENTS))
     o.append('ENDSEC;')
     o.append('END-' + kind + ';')
